@@ -1,7 +1,7 @@
 (** Property C06: command line beats environment beats default, and sources are reported honestly.
     This file contains only the pinned statements; proofs live in ParseProofs/Sources.v. *)
 From ClapModel Require Import Base.Bytes Base.Machine.
-From ClapModel Require Import Parse.Cmd Parse.Build Parse.Matcher Parse.Errors Parse.Validator Parse.Parser.
+From ClapModel Require Import Parse.Cmd Parse.Build Parse.Valid Parse.Matcher Parse.Errors Parse.Validator Parse.Parser.
 From ClapModel Require Import Sources.Present ParseProofs.Sources Gen.ActionDefaults.
 From Coq Require Import ZArith.
 Open Scope N_scope.
@@ -218,3 +218,12 @@ Theorem C06_phases_errors : forall fuel' c toks st0,
         get_matches_with (S fuel') c toks st0 = RErr (mkerr c k a) st3).
 Proof. exact phase_order_errors. Qed.
 Print Assumptions C06_phases_errors.
+
+(** the distinctness hypothesis of the per-argument theorems holds for every level the parser reaches:
+    the root passes [valid] (= [assert_app] of the built command and of every built subcommand), and
+    [get_matches_with] re-checks [assert_app] before descending *)
+Theorem C06_valid_ids_distinct :
+  (forall c, assert_app c = true -> ids_distinct c)
+  /\ (forall c0, valid c0 = true -> ids_distinct (build_self c0)).
+Proof. exact (conj assert_app_ids_distinct (fun c0 H => assert_app_ids_distinct _ (valid_assert_app c0 H))). Qed.
+Print Assumptions C06_valid_ids_distinct.
